@@ -241,17 +241,19 @@ fn oracle(which: &str, r: &Refs, p: &SetSpeedTrainSim, s: &SetSpeedTrainSim, so:
 
 /// (network index, route, train) combinations
 pub fn combos(nets: &[(String, Network)], tier: Tier) -> Vec<(usize, Vec<usize>, TrainSpec)> {
-    let t3 = TrainSpec { n_loaded: 2, n_empty: 1, davis: true, mass_override: None, length_override: None, consist: 0 };
-    let t20 = TrainSpec { n_loaded: 20, n_empty: 0, davis: false, mass_override: None, length_override: None, consist: 2 };
-    let t60 = TrainSpec { n_loaded: 30, n_empty: 30, davis: true, mass_override: None, length_override: None, consist: 3 };
-    let t20o = TrainSpec { n_loaded: 10, n_empty: 10, davis: true, mass_override: Some(1.5e6), length_override: Some(400.0), consist: 4 };
-    let t3b = TrainSpec { n_loaded: 0, n_empty: 3, davis: true, mass_override: None, length_override: None, consist: 1 };
+    let t3 = TrainSpec { n_loaded: 2, n_empty: 1, davis: true, mass_override: None, length_override: None, consist: 0, cd_vec: false };
+    let t20 = TrainSpec { n_loaded: 20, n_empty: 0, davis: false, mass_override: None, length_override: None, consist: 2, cd_vec: false };
+    let t60 = TrainSpec { n_loaded: 30, n_empty: 30, davis: true, mass_override: None, length_override: None, consist: 3, cd_vec: false };
+    let t20o = TrainSpec { n_loaded: 10, n_empty: 10, davis: true, mass_override: Some(1.5e6), length_override: Some(400.0), consist: 4, cd_vec: true };
+    let t3b = TrainSpec { n_loaded: 0, n_empty: 3, davis: true, mass_override: None, length_override: None, consist: 1, cd_vec: true };
     // hybrid units (engine + battery on one drivetrain): their dynamic brake engages when braking exceeds what the battery absorbs
-    let t20h = TrainSpec { n_loaded: 20, n_empty: 0, davis: false, mass_override: None, length_override: None, consist: 5 };
-    let t60h = TrainSpec { n_loaded: 30, n_empty: 30, davis: true, mass_override: None, length_override: None, consist: 6 };
+    let t20h = TrainSpec { n_loaded: 20, n_empty: 0, davis: false, mass_override: None, length_override: None, consist: 5, cd_vec: false };
+    let t60h = TrainSpec { n_loaded: 30, n_empty: 30, davis: true, mass_override: None, length_override: None, consist: 6, cd_vec: false };
+    let t20r = TrainSpec { n_loaded: 20, n_empty: 0, davis: false, mass_override: None, length_override: None, consist: 7, cd_vec: false };
     let idx = |name: &str| nets.iter().position(|n| n.0 == name).unwrap();
     let mut v = vec![
         (idx("line4-a"), vec![1, 2, 3, 4], t3),
+        (idx("line4-b"), vec![1, 2, 3, 4], t20r),
         (idx("line4-a"), vec![1, 2, 3, 4], t20h),
         (idx("line4-a"), vec![1, 2, 3, 4], t60),
         (idx("line4-b"), vec![8, 7, 6, 5], t3b),
